@@ -7,9 +7,12 @@ s=$1; d=/verif/seeded/$s
 [ -f $d/patch.diff ] || { echo "no such seed $s"; exit 2; }
 if [ -n "$(git -C /repo status --porcelain --untracked-files=no 2>/dev/null)" ]; then echo "refusing: /repo has uncommitted changes"; exit 2; fi
 prop=${s%-*}
+ev=/verif/evidence/$prop.json; bak=$(mktemp); [ -f $ev ] && cp $ev $bak
 git -C /repo apply $d/patch.diff || exit 2
 shift
 if [ $# -gt 0 ]; then "$@"; else /verif/check $prop quick; fi
 rc=$?
 git -C /repo checkout -- $(grep '^+++ b/' $d/patch.diff | sed 's|+++ b/||')
+# the evidence file describes the unchanged tree: put it back
+[ -s $bak ] && cp $bak $ev; rm -f $bak
 exit $rc
